@@ -92,9 +92,9 @@ Definition attrib_match (x : str) : bool :=
   | None => match attrib_re x with Ok (Some _) => true | _ => false end
   end.
 
-(* END_RE: "end", then nothing or one of the unit words (in the order of the alternatives; "block
-   data" with exactly one white-space character) followed by nothing or white space and a word
-   character *)
+(* END_RE: an optional statement label, "end", then nothing or one of the unit words (in the order of
+   the alternatives; "block data" with any white space, also none, between the two words) followed by
+   nothing or white space and a word character *)
 Definition end_alts_table : list (str * option str * endkind) :=
   [(s "module", None, EndPlain); (s "submodule", None, EndPlain); (s "subroutine", None, EndPlain);
    (s "function", None, EndPlain); (s "procedure", None, EndPlain); (s "program", None, EndPlain);
@@ -104,7 +104,7 @@ Definition end_alt (w : str) (w2 : option str) (x : str) : option str :=
   opt r <- match_ci w x ;
   match w2 with
   | None => Some r
-  | Some w' => match r with c :: r' => if is_space c then match_ci w' r' else None | [] => None end
+  | Some w' => match_ci w' (skip_ws r)
   end.
 Definition end_tail (r : str) : bool :=
   match r with
@@ -120,11 +120,17 @@ Fixpoint end_alts (alts : list (str * option str * endkind)) (x : str) : option 
     | None => end_alts alts' x
     end
   end.
-Definition end_re (x : str) : option endkind :=
+Definition end_core (x : str) : option endkind :=
   opt r <- match_ci (s "end") x ;
   match skip_ws r with
   | [] => Some EndPlain
   | r' => end_alts end_alts_table r'
+  end.
+(* an optional statement label (digits and white space) precedes "end" *)
+Definition end_re (x : str) : option endkind :=
+  match take_while is_digit x with
+  | (_ :: _, r) => match ws1 r with Some r1 => end_core r1 | None => None end
+  | ([], _) => end_core x
   end.
 
 (* MODPROC_RE: optional "module" + white space, "procedure", then "::" or white space, then the
@@ -362,8 +368,8 @@ Definition type_re (x : str) : option str :=
     end
   end.
 
-(* INTERFACE_RE: optional "abstract", "interface", optional white space and a name (any text):
-   (abstract, name or "") *)
+(* INTERFACE_RE: optional "abstract", "interface", optional white space and a name (text from a word
+   character on): (abstract, name or "") *)
 Definition interface_re (x : str) : option (bool * str) :=
   let '(ab, r0) :=
     match match_ci (s "abstract") x with
@@ -373,7 +379,7 @@ Definition interface_re (x : str) : option (bool * str) :=
     opt r <- match_ci (s "interface") r0 ;
   match r with
   | [] => Some (ab, [])
-  | _ => opt r1 <- ws1 r ; match r1 with [] => None | _ => Some (ab, r1) end
+  | _ => opt r1 <- ws1 r ; if starts_word r1 then Some (ab, r1) else None
   end.
 
 (* ENUM_RE *)
@@ -440,13 +446,13 @@ Definition common_re (x : str) : option (option str * str) :=
   | None => opt r1 <- ws1 r ; if starts_word r1 then Some (None, r1) else None
   end.
 
-(* FINAL_RE: "final", "::", the names from a word character on *)
+(* FINAL_RE: "final", then "::" or white space, the names from a word character on *)
 Definition final_re (x : str) : option str :=
   opt r <- match_ci (s "final") x ;
   let r' := skip_ws r in
   if prefix (s "::") r' then
     let y := skip_ws (skipn 2 r') in if starts_word y then Some y else None
-  else None.
+  else opt r1 <- ws1 r ; if starts_word r1 then Some r1 else None.
 
 (* USE_RE: "use", then (optional ", [non_]intrinsic") "::" or white space, the module name, then the
    end or a comma *)
@@ -656,15 +662,10 @@ Definition action (k : bkey) (c : ctx) (m : str) (lits : list str) : outcome :=
       match unit_name_re (s "module") m with Some (Some n) => fired (SUnit KModule n) | _ => Unmod end
     | SUBMODULE_RE => match submodule_re m with Some n => fired (SUnit KSubmodule n) | None => Unmod end
     | PROGRAM_RE =>
-      (* outside a source file the branch ends in an AttributeError (len(self.programs)) *)
-      match cx_kind c with
-      | KFile =>
-        match unit_name_re (s "program") m with
-        | Some (Some n) => fired (SUnit KProgram n)
-        | Some None => fired (SUnit KProgram [])
-        | None => Unmod
-        end
-      | _ => Unmod
+      match unit_name_re (s "program") m with
+      | Some (Some n) => fired (SUnit KProgram n)
+      | Some None => fired (SUnit KProgram [])
+      | None => Unmod
       end
     | SUBROUTINE_RE =>
       match subroutine_re m with
@@ -820,7 +821,7 @@ Definition modelled_cascade : list branch :=
 Definition modelled_patterns : list (str * (str * list str)) :=
   [((s "FORMAT_RE"), ((s "^[0-9]+\s+format\s*\(.*\)"), [(s "IGNORECASE")]));
    ((s "ATTRIB_RE"), ((s "^(asynchronous|allocatable|bind\s*\(.*\)|data|dimension|external|intent\s*\(\s*\w+(?:\s+\w+)?\s*\)|optional|parameter|pointer|private|protected|public|save|target|value|volatile)(?:\s+|\s*::\s*)((/|\(|\w).*?)\s*$"), [(s "IGNORECASE")]));
-   ((s "END_RE"), ((s "^end\s*(?:(module|submodule|subroutine|function|procedure|program|type|interface|enum|block\sdata|block|associate)(?:\s+(\w.*))?)?$"), [(s "IGNORECASE")]));
+   ((s "END_RE"), ((s "^(?:[0-9]+\s+)?end\s*(?:(module|submodule|subroutine|function|procedure|program|type|interface|enum|block\s*data|block|associate)(?:\s+(\w.*))?)?$"), [(s "IGNORECASE")]));
    ((s "MODPROC_RE"), ((s "^(?P<module>module\s+)?procedure\s*(?:::|\s)\s*(?P<names>\w.*)$"), [(s "IGNORECASE")]));
    ((s "BLOCK_DATA_RE"), ((s "^block\s*data\s*(\w+)?\s*$"), [(s "IGNORECASE")]));
    ((s "BLOCK_RE"), ((s "^(\w+\s*:)?\s*block\s*$"), [(s "IGNORECASE")]));
@@ -846,7 +847,7 @@ Definition modelled_patterns : list (str * (str * list str)) :=
         (?=(?:.*result\s*\(\s*(?P<result>\w+)\s*\))?)  # Optional result name
         (?=(?:.*bind\s*\(\s*(?P<bindC>.*)\s*\))?).*$   # Optional C-binding"), [(s "IGNORECASE"); (s "VERBOSE")]));
    ((s "TYPE_RE"), ((s "^type(?:\s+|\s*(,.*)?::\s*)((?!(?:is\s*\())\w+)\s*(\([^()]*\))?\s*$"), [(s "IGNORECASE")]));
-   ((s "INTERFACE_RE"), ((s "^(abstract\s+)?interface(?:\s+(.+))?$"), [(s "IGNORECASE")]));
+   ((s "INTERFACE_RE"), ((s "^(abstract\s+)?interface(?:\s+(\w.*))?$"), [(s "IGNORECASE")]));
    ((s "ENUM_RE"), ((s "^enum\s*,\s*bind\s*\(.*\)\s*$"), [(s "IGNORECASE")]));
    ((s "BOUNDPROC_RE"), ((s "^(?P<generic>generic|procedure)\s*  # Required keyword
         (?P<prototype>\([^()]*\))?\s*           # Optional interface name
@@ -855,7 +856,7 @@ Definition modelled_patterns : list (str * (str * list str)) :=
         (?P<names>\w.*)$                        # Required name(s)
         "), [(s "IGNORECASE"); (s "VERBOSE")]));
    ((s "COMMON_RE"), ((s "^common(?:\s*/\s*(\w+)\s*/\s*|\s+)(\w+.*)"), [(s "IGNORECASE")]));
-   ((s "FINAL_RE"), ((s "^final\s*::\s*(\w.*)"), [(s "IGNORECASE")]));
+   ((s "FINAL_RE"), ((s "^final(?:\s*::\s*|\s+)(\w.*)"), [(s "IGNORECASE")]));
    ((s "VARIABLE_RE"), ((s "^(integer|real|double\s*precision|character|complex|double\s*complex|logical|type(?!\s+is)|class(?!\s+is|\s+default)|procedure|enumerator)\s*((?:\(|\s\w|[:,*]).*)$"), [(s "IGNORECASE")]));
    ((s "USE_RE"), ((s "^use(?:\s*(?:,\s*(?P<nature>(?:non_)?intrinsic)\s*)?::\s*|\s+)(?P<name>\w+)\s*(?P<rest>$|,.*)"), [(s "IGNORECASE")]));
    ((s "ARITH_GOTO_RE"), ((s "\bgo\s*to\s*\([0-9,\s]+\)"), [(s "IGNORECASE")]));
